@@ -64,6 +64,11 @@ def main(tier):
         mkname = lambda: b"/" + b"/".join(comp() for _ in range(rng.randint(1, 3)))
         cases.append(mk_report(rid, rng.choice(["text", "json"]), [[mkname() for _ in range(rng.randint(2, 4))] for _ in range(rng.randint(1, 3))],
                                [b"fclones", b"group"] + [mkname()[1:] for _ in range(rng.randint(0, 3))], mkname()))
+    # groups far larger than any buffer or pre-allocation guard of the readers
+    for fmt in ("text", "json"):
+        for npaths in (1024, 1025, 3000):
+            rid += 1
+            cases.append(mk_report(rid, fmt, [[b"/big/f%05d" % i for i in range(npaths)], [b"/after/a", b"/after/b"]], [b"fclones", b"group", b"big"], b"/base"))
     # truncation: every byte prefix of a few reports
     cutcases = []
     for fmt in ("text", "json"):
